@@ -8,7 +8,7 @@ from ..runner import Part, Violation
 ID = "C09"
 RULE = ("model-based histories over every identified record type (S, P, L/C with ID tag, E, G, O, U): add and "
         "rename to a fresh identifier, to one in use by the same type, to one in use by another type, to '*', to "
-        "integer-looking names; interleaved unused_name() calls and removals. After every step: names has no "
+        "integer-looking names; ID tags of links/containments deleted or set to None; interleaved unused_name() calls and removals. After every step: names has no "
         "duplicates and equals the model's namespace; the per-kind name lists partition it; line(n) is the line "
         "whose current name is n for every n (segment(n) too for segments); unused strings give None / "
         "NotFoundError; unused_name() is not in names. A collision with a real line must raise NotUniqueError and "
@@ -153,7 +153,19 @@ def prop(case):
                 if any(m_[0] == old for r_ in run.model.recs for m_ in M.mentions(r_)):
                     renamed_ref = True
             try:
-                run.apply(op)
+                if kind == "drop_id":
+                    # an ID-tagged link or containment gives its identifier up
+                    rec = run.model.recs[op[1]]
+                    line = run.find_line(rec)
+                    if line is None:
+                        raise LookupError("model record %r has no line in the Gfa" % rec.text())
+                    if op[2] == "delete":
+                        line.delete("ID")
+                    else:
+                        line.set("ID", None)
+                    rec.tags = [t for t in rec.tags if t[0] != "ID"]
+                else:
+                    run.apply(op)
             except Exception as e:
                 raise Violation("legal-step", "legal step %d %r raised %s: %s\n%s" % (step, op, type(e).__name__, str(e)[:300], run.model.text()),
                                 "%s/%s" % (kind, type(e).__name__))
@@ -211,6 +223,7 @@ def gen_case(r, version):
         if rec.rt == "L":
             st_.ov_policy[M.ends_key(*rec.pos[:4])] = "*" if rec.pos[4] == "*" else "spec"
     ops.append(["load", doc["lines"]])
+    merged = set()
     for _ in range(r.randint(4, 16)):
         x = r.random()
         named = [i for i, rec in enumerate(st_.model.recs) if M.name_of(rec) is not None]
@@ -224,8 +237,14 @@ def gen_case(r, version):
         elif x < 0.4 and named:
             # collision attempts
             tgt = st_.model.recs[gen.choice(r, named)]
+            mentioned = set(m_[0] for x_ in st_.model.recs for m_ in M.mentions(x_))
+            inner = [j for j in named if st_.model.recs[j].rt in "OU" and M.name_of(st_.model.recs[j]) in mentioned]
+            if inner and gen.chance(r, 0.3):
+                tgt = st_.model.recs[gen.choice(r, inner)]  # a group which is an item of another group
             nm = M.name_of(tgt)
             segs = st_.model.segment_names()
+            if not segs:
+                continue
             a, b = gen.choice(r, segs), gen.choice(r, segs)
             if gen.chance(r, 0.5):
                 if version == "gfa1":
@@ -235,7 +254,10 @@ def gen_case(r, version):
                     cands = [("S", "S\t%s\t10\t*" % nm), ("E", "E\t%s\t%s+\t%s-\t0\t0\t0\t0\t*" % (nm, a, b)),
                              ("G", "G\t%s\t%s+\t%s-\t5\t*" % (nm, a, b)), ("O", "O\t%s\t%s+" % (nm, a)), ("U", "U\t%s\t%s" % (nm, a))]
                 rt, text = gen.choice(r, cands)
+                if tgt.rt in "OU" and gen.chance(r, 0.5):
+                    rt, text = next(c for c in cands if c[0] == tgt.rt)
                 if rt == tgt.rt and rt in "OU":
+                    merged.add(id(tgt))
                     ops.append(["collide_add", text, "group_merge_add"])
                     tgt.pos[1] = tgt.pos[1] + " " + text.split("\t")[2]
                 else:
@@ -257,6 +279,9 @@ def gen_case(r, version):
             mentioned = set(m_[0] for x_ in st_.model.recs for m_ in M.mentions(x_))
             pref = [j for j in named if M.name_of(st_.model.recs[j]) in mentioned]
             i = gen.choice(r, pref) if pref and gen.chance(r, 0.7) else gen.choice(r, named)
+            cont = [j for j in pref if id(st_.model.recs[j]) in merged]
+            if cont and gen.chance(r, 0.5):
+                i = gen.choice(r, cont)  # a mentioned group which was defined in several lines
             rec = st_.model.recs[i]
             pool = [n for n in INT_NAMES + H.FRESH[:6] + H.POOL.get(rec.rt if rec.rt in H.POOL else "S", []) if n not in names
                     and n not in st_.model.undefined_mentions()]
@@ -266,6 +291,11 @@ def gen_case(r, version):
             if not pool:
                 continue
             ops.append(rename_op(st_, r, i, gen.choice(r, pool)))
+        elif x < 0.64 and version == "gfa1" and any(rec.rt in "LC" and rec.tag("ID") for rec in st_.model.recs):
+            i = gen.choice(r, [j for j, rec in enumerate(st_.model.recs) if rec.rt in "LC" and rec.tag("ID")])
+            rec = st_.model.recs[i]
+            rec.tags = [t for t in rec.tags if t[0] != "ID"]
+            ops.append(["drop_id", i, gen.choice(r, ["delete", "set_none"])])
         elif x < 0.7:
             rem = H.removable(st_)
             if rem:
@@ -284,7 +314,9 @@ def gen_case(r, version):
                     line[1][0] = gen.choice(r, free)
                     if line[0] == "S":
                         st_.slen[line[1][0]] = int(line[1][1]) if version == "gfa2" else st_.slen.get(line[1][0], 8)
-            H.model_add(st_, line)
+            rec_ = H.model_add(st_, line)
+            if line[0] in "OU" and rec_.pos[1] != line[1][1]:
+                merged.add(id(rec_))
             ops.append(["add", line, False])
     ops = [o for o in ops if o[0] != "stop"]
     return {"version": version, "vlevel": gen.choice(r, [1, 1, 2, 3]), "ops": ops}
